@@ -1146,10 +1146,15 @@ impl Runner {
 
     /// The same operation `k` times back-to-back on `tid`.
     fn do_burst(&mut self, step: u32, tid: u32, op: &Op, k: u32) -> HResult<()> {
-        // no parking inside a burst
+        // no parking inside a burst, and no re-entrant sink work (a wide,
+        // padded Display with a re-entrant sink costs tens of microseconds)
         let mut op = op.clone();
-        if let Op::Fmt { pauses, .. } = &mut op {
+        if let Op::Fmt { pauses, reent, w, .. } = &mut op {
             pauses.clear();
+            *reent = false;
+            if *w > 24 {
+                *w = 24;
+            }
         }
         let mut ev = self.blank(step, tid, EvKind::Op(op.clone()));
         let obs = if self.threads[&tid].tx.is_none() {
@@ -1161,7 +1166,13 @@ impl Runner {
                 .unwrap()
                 .send(Cmd::Burst(op.clone(), k))
                 .map_err(|_| format!("T{}: command channel closed", tid))?;
-            match self.recv()? {
+            // a burst is k operations: give it time in proportion (the host
+            // may be busy), the ordinary watchdog is for single operations
+            let saved = self.watchdog;
+            self.watchdog = saved + Duration::from_secs(60 + (k as u64) / 1000);
+            let r = self.recv();
+            self.watchdog = saved;
+            match r? {
                 Some(Reply::Burst(t, obs)) if t == tid => obs,
                 Some(Reply::Harness(t, msg)) => return Err(format!("T{}: {}", t, msg)),
                 Some(_) => {
